@@ -136,6 +136,39 @@ def run(repo: Repo, rep: Report, tier: str) -> None:
                 dist_note = ", degree 2 in distance" if (uses_sets and dv is not None and dv.d is not None) else (" (distance degree not derivable: normalised decision variable)" if uses_sets else "")
                 rep.ok("LLR-SCALE", fi, construct, "degree -1 in the noise variance" + dist_note, node=r)
 
+        # ---------------- grid slicers: an index computed by rounding must be limited at BOTH ends
+        for meth in ci.methods.values():
+            idx_names = {}
+            for st_ in ast.walk(meth.node):
+                if isinstance(st_, ast.Assign) and isinstance(st_.targets[0], ast.Name):
+                    txt_ = unparse(st_.value)
+                    if any(k in txt_ for k in ("torch.round(", ".round()", "torch.floor(", "torch.div(")) and (".long()" in txt_ or ".int()" in txt_ or "torch.long" in txt_):
+                        idx_names[st_.targets[0].id] = st_
+            for nm_, def_ in idx_names.items():
+                used_as_index = any(isinstance(x_, ast.Subscript) and isinstance(x_.ctx, ast.Load) and any(isinstance(y_, ast.Name) and y_.id == nm_ for y_ in ast.walk(x_.slice)) for x_ in ast.walk(meth.node))
+                if not used_as_index:
+                    continue
+                lo = hi_ = False
+                for st_ in ast.walk(meth.node):
+                    if isinstance(st_, ast.Assign) and isinstance(st_.targets[0], ast.Name) and st_.targets[0].id == nm_ and isinstance(st_.value, ast.Call):
+                        cn_ = (call_name(st_.value) or "").split(".")[-1] if call_name(st_.value) else (st_.value.func.attr if isinstance(st_.value.func, ast.Attribute) else "")
+                        if isinstance(st_.value.func, ast.Attribute):
+                            cn_ = st_.value.func.attr
+                        kws = {k.arg for k in st_.value.keywords}
+                        nargs = len(st_.value.args) - (1 if (call_name(st_.value) or "").startswith("torch.") else 0)
+                        if cn_ in ("clamp", "clip"):
+                            lo = lo or "min" in kws or nargs >= 1
+                            hi_ = hi_ or "max" in kws or nargs >= 2
+                        if cn_ in ("clamp_min",):
+                            lo = True
+                        if cn_ in ("clamp_max",):
+                            hi_ = True
+                if lo != hi_:
+                    rep.violation("HARD-NEAREST", meth, f"{ci.name}: `{nm_}` = {unparse(def_.value)[:70]} used as a table index", f"the rounded grid index is limited only at its {'lower' if lo else 'upper'} end: a received value beyond the other end of the constellation gives an index outside the table that wraps around (negative index) or raises, instead of deciding for the outermost point", node=def_)
+                elif not lo and not hi_:
+                    rep.undecided("HARD-NEAREST", meth, f"{ci.name}: `{nm_}` = {unparse(def_.value)[:70]} used as a table index", "a grid slicer without range limitation is not recognised as a nearest-point search", node=def_)
+                else:
+                    rep.undecided("HARD-NEAREST", meth, f"{ci.name}: `{nm_}` = {unparse(def_.value)[:70]} used as a table index", "grid slicers are not verified as nearest-point searches by this checker", node=def_)
         # ---------------- HARD-NEAREST
         hi = run_forward(repo, ci, fi, HARD_ATOMS)
         hrets = [(v, r) for (v, r, _e) in hi.returns if v is not None]
